@@ -2,6 +2,7 @@ import A2Verif.Lemmas.FsDosInit
 import A2Verif.Lemmas.FsDosDelete
 import A2Verif.Lemmas.FsDosPutD
 import A2Verif.Lemmas.FsDosFresh
+import A2Verif.Lemmas.FsDosCat
 import A2Verif.Props.C01
 import A2Verif.Props.C03
 import A2Verif.Props.C04
@@ -87,28 +88,39 @@ theorem refused_same {d : Disk} {sb : List Nat} (h : DInv d sb) (op : FsOp) :
   obtain ⟨_, v, _, _, hr, hw⟩ := dinv_reading h
   exact ⟨h, v, v, hr, hr, stepOk_refused_same hw op⟩
 
+/-- **one step of the concrete model, with its accounting**: the invariant is kept, the geometry is kept, the readings
+before and after are related by a step the specification allows, and (under `cond`) a reading without lost units
+stays so (`StepL`) -/
+def StepD (d d' : Disk) (sb : List Nat) (op : FsOp) (ok : Bool) (cond : Prop) : Prop :=
+  DInv d' sb ∧ d'.c = d.c ∧ ∃ pre post, reading d sb = .ok pre ∧ reading d' sb = .ok post ∧ StepL dosParams pre op ok post cond
+
+theorem StepD.refines {d d' : Disk} {sb : List Nat} {op : FsOp} {ok : Bool} {cond : Prop} (h : StepD d d' sb op ok cond) :
+    DInv d' sb ∧ ∃ pre post, reading d sb = .ok pre ∧ reading d' sb = .ok post ∧ stepOk dosParams pre op ok post = true := by
+  obtain ⟨h1, _, pre, post, a, b, c⟩ := h
+  exact ⟨h1, pre, post, a, b, c.ok⟩
+
+theorem StepD.same {d : Disk} {sb : List Nat} (h : DInv d sb) (op : FsOp) (cond : Prop) : StepD d d sb op false cond := by
+  obtain ⟨_, v, _, _, hr, hw⟩ := dinv_reading h
+  exact ⟨h, rfl, v, v, hr, hr, StepL.refused_same hw op cond⟩
+
 /-- transfer of a working-state refinement to the disk object -/
 theorem lift_refines {d : Disk} {sb : List Nat} {v : Bytes} {L : Lay} (hv : d.vtoc = some v)
-    (hi : WInv { c := d.c, raw := d.raw, v := v } sb L) {α : Type} {m : M α} {op : FsOp}
+    (hi : WInv { c := d.c, raw := d.raw, v := v } sb L) {α : Type} {m : M α} {op : FsOp} {cond : Prop}
     (h : ∃ res w', m { c := d.c, raw := d.raw, v := v } = (res, w') ∧ WInv w' sb L ∧ w'.c = d.c ∧
-      stepOk dosParams (volOf (W.mk d.c d.raw v).img d.c sb L) op (isOk res)
-        (volOf w'.img d.c sb L) = true) :
-    DInv (d.run m).2 sb ∧ ∃ pre post, reading d sb = .ok pre ∧ reading (d.run m).2 sb = .ok post ∧
-      stepOk dosParams pre op (isOk (d.run m).1) post = true := by
+      StepL dosParams (volOf (W.mk d.c d.raw v).img d.c sb L) op (isOk res) (volOf w'.img d.c sb L) cond) :
+    StepD d (d.run m).2 sb op (isOk (d.run m).1) cond := by
   obtain ⟨res, w', hm, hi', hc', hs⟩ := h
   rw [run_eq hv, hm]
-  refine ⟨dinv_toDisk hi', volOf (W.mk d.c d.raw v).img d.c sb L, volOf w'.img d.c sb L, ?_, ?_, ?_⟩
+  refine ⟨dinv_toDisk hi', hc', volOf (W.mk d.c d.raw v).img d.c sb L, volOf w'.img d.c sb L, ?_, ?_, ?_⟩
   · have := reading_toDisk hi; rw [toDisk_eq hv] at this; exact this
   · have := reading_toDisk hi'; rw [hc'] at this; exact this
   · exact hs
 
 /-! ## the operations -/
 
-/-- `lock` of the concrete model refines the specification: the invariant is kept and the readings before and
-after are related by `stepOk … (.lock path) …` (refused: nothing changed). -/
-theorem dos_lock_refines {d : Disk} {sb : List Nat} (h : DInv d sb) (name : Bytes) :
-    DInv (lock d name).2 sb ∧ ∃ pre post, reading d sb = .ok pre ∧ reading (lock d name).2 sb = .ok post ∧
-      stepOk dosParams pre (.lock (pathOf name)) (isOk (lock d name).1) post = true := by
+/-- `lock` of the concrete model, with its accounting -/
+theorem dos_lock_stepD {d : Disk} {sb : List Nat} (h : DInv d sb) (name : Bytes) :
+    StepD d (lock d name).2 sb (.lock (pathOf name)) (isOk (lock d name).1) True := by
   unfold lock Fs.Dos3x.modify
   by_cases hv : isNameValid name = true
   · obtain ⟨fname, hfn, _, _⟩ := stringToFileName_ok hv
@@ -119,11 +131,17 @@ theorem dos_lock_refines {d : Disk} {sb : List Nat} (h : DInv d sb) (name : Byte
     simp only [if_true] at hr
     exact lift_refines hvt hi hr
   · simp only [hv, Bool.not_false, if_true]
-    exact refused_same h _
+    exact StepD.same h _ _
 
-theorem dos_unlock_refines {d : Disk} {sb : List Nat} (h : DInv d sb) (name : Bytes) :
-    DInv (unlock d name).2 sb ∧ ∃ pre post, reading d sb = .ok pre ∧ reading (unlock d name).2 sb = .ok post ∧
-      stepOk dosParams pre (.unlock (pathOf name)) (isOk (unlock d name).1) post = true := by
+/-- `lock` of the concrete model refines the specification: the invariant is kept and the readings before and
+after are related by `stepOk … (.lock path) …` (refused: nothing changed). -/
+theorem dos_lock_refines {d : Disk} {sb : List Nat} (h : DInv d sb) (name : Bytes) :
+    DInv (lock d name).2 sb ∧ ∃ pre post, reading d sb = .ok pre ∧ reading (lock d name).2 sb = .ok post ∧
+      stepOk dosParams pre (.lock (pathOf name)) (isOk (lock d name).1) post = true :=
+  (dos_lock_stepD h name).refines
+
+theorem dos_unlock_stepD {d : Disk} {sb : List Nat} (h : DInv d sb) (name : Bytes) :
+    StepD d (unlock d name).2 sb (.unlock (pathOf name)) (isOk (unlock d name).1) True := by
   unfold unlock Fs.Dos3x.modify
   by_cases hv : isNameValid name = true
   · obtain ⟨fname, hfn, _, _⟩ := stringToFileName_ok hv
@@ -134,11 +152,15 @@ theorem dos_unlock_refines {d : Disk} {sb : List Nat} (h : DInv d sb) (name : By
     simp only [Bool.false_eq_true, if_false] at hr
     exact lift_refines hvt hi hr
   · simp only [hv, Bool.not_false, if_true]
-    exact refused_same h _
+    exact StepD.same h _ _
 
-theorem dos_retype_refines {d : Disk} {sb : List Nat} (h : DInv d sb) (name : Bytes) (ty : Option Nat) :
-    DInv (retype d name ty).2 sb ∧ ∃ pre post, reading d sb = .ok pre ∧ reading (retype d name ty).2 sb = .ok post ∧
-      stepOk dosParams pre (.retype (pathOf name)) (isOk (retype d name ty).1) post = true := by
+theorem dos_unlock_refines {d : Disk} {sb : List Nat} (h : DInv d sb) (name : Bytes) :
+    DInv (unlock d name).2 sb ∧ ∃ pre post, reading d sb = .ok pre ∧ reading (unlock d name).2 sb = .ok post ∧
+      stepOk dosParams pre (.unlock (pathOf name)) (isOk (unlock d name).1) post = true :=
+  (dos_unlock_stepD h name).refines
+
+theorem dos_retype_stepD {d : Disk} {sb : List Nat} (h : DInv d sb) (name : Bytes) (ty : Option Nat) :
+    StepD d (retype d name ty).2 sb (.retype (pathOf name)) (isOk (retype d name ty).1) True := by
   unfold retype Fs.Dos3x.modify
   by_cases hv : isNameValid name = true
   · obtain ⟨fname, hfn, _, _⟩ := stringToFileName_ok hv
@@ -147,14 +169,15 @@ theorem dos_retype_refines {d : Disk} {sb : List Nat} (h : DInv d sb) (name : By
     simp only [hv, Bool.not_true, Bool.false_eq_true, if_false, hp]
     exact lift_refines hvt hi (retypeM_refines hi hfn ty)
   · simp only [hv, Bool.not_false, if_true]
-    exact refused_same h _
+    exact StepD.same h _ _
 
+theorem dos_retype_refines {d : Disk} {sb : List Nat} (h : DInv d sb) (name : Bytes) (ty : Option Nat) :
+    DInv (retype d name ty).2 sb ∧ ∃ pre post, reading d sb = .ok pre ∧ reading (retype d name ty).2 sb = .ok post ∧
+      stepOk dosParams pre (.retype (pathOf name)) (isOk (retype d name ty).1) post = true :=
+  (dos_retype_stepD h name ty).refines
 
-/-- `rename` (= `ok_to_rename`, then `modify`) refines the specification; a refusal — invalid name, new name in
-use, old name missing, file locked — leaves the disk as it was. -/
-theorem dos_rename_refines {d : Disk} {sb : List Nat} (h : DInv d sb) (old new : Bytes) :
-    DInv (rename d old new).2 sb ∧ ∃ pre post, reading d sb = .ok pre ∧ reading (rename d old new).2 sb = .ok post ∧
-      stepOk dosParams pre (.rename (pathOf old) (pathOf new)) (isOk (rename d old new).1) post = true := by
+theorem dos_rename_stepD {d : Disk} {sb : List Nat} (h : DInv d sb) (old new : Bytes) :
+    StepD d (rename d old new).2 sb (.rename (pathOf old) (pathOf new)) (isOk (rename d old new).1) True := by
   unfold rename
   by_cases hvn : isNameValid new = true
   · obtain ⟨nf, hnn, hnl, hnb⟩ := stringToFileName_ok hvn
@@ -163,7 +186,7 @@ theorem dos_rename_refines {d : Disk} {sb : List Nat} (h : DInv d sb) (old new :
     have hrun : d.run (getTslistSector new) = (.ok o, d) := by rw [run_eq hvt, ho]; simp only; rw [toDisk_eq hvt]
     simp only [hvn, Bool.not_true, Bool.false_eq_true, if_false, hrun]
     cases o with
-    | some x => exact refused_same ⟨v, L, hvt, hi⟩ _
+    | some x => exact StepD.same ⟨v, L, hvt, hi⟩ _ _
     | none =>
       simp only
       have hfree := hoi.1 rfl
@@ -175,31 +198,32 @@ theorem dos_rename_refines {d : Disk} {sb : List Nat} (h : DInv d sb) (old new :
         simp only [hv, Bool.not_true, Bool.false_eq_true, if_false, hp, hq]
         exact lift_refines hvt hi (renameM_refines (P := dosParams) hi hfn hnn hnl hnb hfree)
       · simp only [hv, Bool.not_false, if_true]
-        exact refused_same ⟨v, L, hvt, hi⟩ _
+        exact StepD.same ⟨v, L, hvt, hi⟩ _ _
   · simp only [hvn, Bool.not_false, if_true]
-    exact refused_same h _
+    exact StepD.same h _ _
 
+/-- `rename` (= `ok_to_rename`, then `modify`) refines the specification; a refusal — invalid name, new name in
+use, old name missing, file locked — leaves the disk as it was. -/
+theorem dos_rename_refines {d : Disk} {sb : List Nat} (h : DInv d sb) (old new : Bytes) :
+    DInv (rename d old new).2 sb ∧ ∃ pre post, reading d sb = .ok pre ∧ reading (rename d old new).2 sb = .ok post ∧
+      stepOk dosParams pre (.rename (pathOf old) (pathOf new)) (isOk (rename d old new).1) post = true :=
+  (dos_rename_stepD h old new).refines
 
-/-- transfer of a working-state refinement that changes the layout (delete, put) to the disk object -/
+/-- transfer of a working-state refinement that changes the layout (delete) to the disk object -/
 theorem lift_refines' {d : Disk} {sb : List Nat} {v : Bytes} {L : Lay} (hv : d.vtoc = some v)
-    (hi : WInv { c := d.c, raw := d.raw, v := v } sb L) {α : Type} {m : M α} {op : FsOp}
+    (hi : WInv { c := d.c, raw := d.raw, v := v } sb L) {α : Type} {m : M α} {op : FsOp} {cond : Prop}
     (h : ∃ res w' L', m { c := d.c, raw := d.raw, v := v } = (res, w') ∧ WInv w' sb L' ∧ w'.c = d.c ∧
-      stepOk dosParams (volOf (W.mk d.c d.raw v).img d.c sb L) op (isOk res) (volOf w'.img d.c sb L') = true) :
-    DInv (d.run m).2 sb ∧ ∃ pre post, reading d sb = .ok pre ∧ reading (d.run m).2 sb = .ok post ∧
-      stepOk dosParams pre op (isOk (d.run m).1) post = true := by
+      StepL dosParams (volOf (W.mk d.c d.raw v).img d.c sb L) op (isOk res) (volOf w'.img d.c sb L') cond) :
+    StepD d (d.run m).2 sb op (isOk (d.run m).1) cond := by
   obtain ⟨res, w', L', hm, hi', hc', hs⟩ := h
   rw [run_eq hv, hm]
-  refine ⟨dinv_toDisk hi', volOf (W.mk d.c d.raw v).img d.c sb L, volOf w'.img d.c sb L', ?_, ?_, ?_⟩
+  refine ⟨dinv_toDisk hi', hc', volOf (W.mk d.c d.raw v).img d.c sb L, volOf w'.img d.c sb L', ?_, ?_, ?_⟩
   · have := reading_toDisk hi; rw [toDisk_eq hv] at this; exact this
   · have := reading_toDisk hi'; rw [hc'] at this; exact this
   · exact hs
 
-/-- `delete` of the concrete model refines the specification: an accepted delete frees exactly the sectors the
-file's record owned (data and T/S lists) and removes exactly that record; a refusal (missing file, locked file,
-over-long name) leaves the disk as it was. -/
-theorem dos_delete_refines {d : Disk} {sb : List Nat} (h : DInv d sb) (name : Bytes) :
-    DInv (delete d name).2 sb ∧ ∃ pre post, reading d sb = .ok pre ∧ reading (delete d name).2 sb = .ok post ∧
-      stepOk dosParams pre (.delete (pathOf name)) (isOk (delete d name).1) post = true := by
+theorem dos_delete_stepD {d : Disk} {sb : List Nat} (h : DInv d sb) (name : Bytes) :
+    StepD d (delete d name).2 sb (.delete (pathOf name)) (isOk (delete d name).1) True := by
   unfold delete
   obtain ⟨v, L, hvt, hi⟩ := h
   cases hfn : stringToFileName name with
@@ -209,11 +233,88 @@ theorem dos_delete_refines {d : Disk} {sb : List Nat} (h : DInv d sb) (name : By
       simp only [M.bind_apply, M.getV_apply, M.lift_apply, hfn]
     rw [run_eq hvt, hm]
     simp only [toDisk_eq hvt]
-    exact refused_same ⟨v, L, hvt, hi⟩ _
+    exact StepD.same ⟨v, L, hvt, hi⟩ _ _
   | ok fname =>
     have hp : pathOf name = pathOfName fname := by unfold pathOf; rw [hfn]
     rw [hp]
     exact lift_refines' hvt hi (deleteM_refines (P := dosParams) hi hfn)
+
+/-- `delete` of the concrete model refines the specification: an accepted delete frees exactly the sectors the
+file's record owned (data and T/S lists) and removes exactly that record; a refusal (missing file, locked file,
+over-long name) leaves the disk as it was. -/
+theorem dos_delete_refines {d : Disk} {sb : List Nat} (h : DInv d sb) (name : Bytes) :
+    DInv (delete d name).2 sb ∧ ∃ pre post, reading d sb = .ok pre ∧ reading (delete d name).2 sb = .ok post ∧
+      stepOk dosParams pre (.delete (pathOf name)) (isOk (delete d name).1) post = true :=
+  (dos_delete_stepD h name).refines
+
+/-- `put d f` is one of the two refusals that come after `write_file` has reserved the T/S list sector: the image
+passes the checks of `put`, and the answer is DISK FULL although `pre.free` (= `stat().free_blocks`) covers the
+sectors the file needs (the catalog has no free entry), or RANGE ERROR (the image has no type byte) -/
+def PutLeaks (pre : Vol) (d : Disk) (f : FImg) : Prop :=
+  f.fsOk = true ∧ f.chunkLen = 256 ∧ isNameValid f.fullPath = true ∧ leakRes (put d f).1 f pre.free
+
+/-- `put` of the concrete model, with its accounting (C01, C02, C03, C05: `stepOk`; C04: `PutLeaks` is the only way
+to lose a unit, and it loses exactly one) -/
+theorem dos_put_stepD {d : Disk} {sb : List Nat} (h : DInv d sb) (f : FImg) (hfit : ChunksFit f) :
+    DInv (put d f).2 sb ∧ (put d f).2.c = d.c ∧ ∃ pre post, reading d sb = .ok pre ∧ reading (put d f).2 sb = .ok post ∧
+      stepOk dosParams pre (.put (pathOf f.fullPath) (putChunks f) 0 (f.fsType.getD 0 0 % 128) 0) (isOk (put d f).1) post = true ∧
+      (¬ PutLeaks pre d f → pre.noLeak = true → post.noLeak = true) ∧
+      (PutLeaks pre d f → post.files = pre.files ∧ post.free + 1 = pre.free ∧ post.sys = pre.sys ∧ post.lo = pre.lo ∧ post.hi = pre.hi) := by
+  have hsame : ∀ (e : Err), e ≠ .diskFull → ((put d f).1 = .error e ∧ (put d f).2 = d ∧ (e = .range → f.chunkLen ≠ 256)) →
+      DInv (put d f).2 sb ∧ (put d f).2.c = d.c ∧ ∃ pre post, reading d sb = .ok pre ∧ reading (put d f).2 sb = .ok post ∧
+      stepOk dosParams pre (.put (pathOf f.fullPath) (putChunks f) 0 (f.fsType.getD 0 0 % 128) 0) (isOk (put d f).1) post = true ∧
+      (¬ PutLeaks pre d f → pre.noLeak = true → post.noLeak = true) ∧
+      (PutLeaks pre d f → post.files = pre.files ∧ post.free + 1 = pre.free ∧ post.sys = pre.sys ∧ post.lo = pre.lo ∧ post.hi = pre.hi) := by
+    intro e hne ⟨h1, h2, h3⟩
+    obtain ⟨_, v, _, _, hr, hw⟩ := dinv_reading h
+    rw [h1, h2]
+    refine ⟨h, rfl, v, v, hr, hr, stepOk_refused_same hw _, fun _ hn => hn, fun hl => ?_⟩
+    exfalso
+    obtain ⟨_, hcl, _, hlk⟩ := hl
+    rw [h1] at hlk
+    rcases hlk with ⟨hlk, _⟩ | hlk
+    · injection hlk with hlk; exact hne hlk
+    · injection hlk with hlk; exact h3 hlk hcl
+  by_cases h1 : f.fsOk = true
+  · by_cases h2 : f.chunkLen = 256
+    · by_cases hv : isNameValid f.fullPath = true
+      · obtain ⟨fname, hfn, hfl, hfb⟩ := stringToFileName_ok hv
+        obtain ⟨v, L, hvt, hi⟩ := h
+        have hp : pathOf f.fullPath = pathOfName fname := by unfold pathOf; rw [hfn]
+        have hput : put d f = d.run (writeFile f) := by
+          unfold put
+          simp only [h1, Bool.not_true, Bool.false_eq_true, if_false, h2, ne_eq, not_true_eq_false, hv]
+        obtain ⟨res, w', L', hm, hi', hc', hs, hl⟩ := putM_refines hi hfit hfn hfl hfb
+        have hrd := reading_toDisk hi
+        rw [toDisk_eq hvt] at hrd
+        have hfr : (volOf (W.mk d.c d.raw v).img d.c sb L).free = nfree v d.c := by
+          show (freeOf (W.mk d.c d.raw v).img d.c).length = _
+          rw [freeOf_eq hi.ok]; rfl
+        rw [hput, run_eq hvt, hm, hp]
+        refine ⟨dinv_toDisk hi', hc', _, volOf w'.img d.c sb L', hrd, ?_, hs, ?_, ?_⟩
+        · have := reading_toDisk hi'; rw [hc'] at this; exact this
+        · intro hnl
+          apply hl.tight
+          intro hlk
+          apply hnl
+          refine ⟨h1, h2, hv, ?_⟩
+          rw [hput, run_eq hvt, hm, hfr]; exact hlk
+        · intro hlk
+          apply hl.leak
+          have := hlk.2.2.2
+          rw [hput, run_eq hvt, hm, hfr] at this; exact this
+      · have e1 : put d f = (.error .syntaxError, d) := by
+          unfold put
+          simp only [h1, Bool.not_true, Bool.false_eq_true, if_false, h2, ne_eq, not_true_eq_false, hv, Bool.not_false, if_true]
+        exact hsame .syntaxError (by decide) ⟨by rw [e1], by rw [e1], fun e => by cases e⟩
+    · have e1 : put d f = (.error .range, d) := by
+        unfold put
+        simp only [h1, Bool.not_true, Bool.false_eq_true, if_false, ne_eq, h2, not_false_eq_true, if_true]
+      exact hsame .range (by decide) ⟨by rw [e1], by rw [e1], fun _ => h2⟩
+  · have e1 : put d f = (.error .ioError, d) := by
+      unfold put
+      simp only [h1, Bool.not_false, if_true]
+    exact hsame .ioError (by decide) ⟨by rw [e1], by rw [e1], fun e => by cases e⟩
 
 /-- `put` of the concrete model refines the specification, for every file image whose chunks are not longer than
 the chunk length (any number of T/S lists — the spill to a continuation sector —, holes across lists, short chunks):
@@ -223,21 +324,8 @@ sectors, catalog full, no type) leaves all files as they were and the volume wel
 theorem dos_put_refines {d : Disk} {sb : List Nat} (h : DInv d sb) (f : FImg) (hfit : ChunksFit f) :
     DInv (put d f).2 sb ∧ ∃ pre post, reading d sb = .ok pre ∧ reading (put d f).2 sb = .ok post ∧
       stepOk dosParams pre (.put (pathOf f.fullPath) (putChunks f) 0 (f.fsType.getD 0 0 % 128) 0) (isOk (put d f).1) post = true := by
-  unfold put
-  by_cases h1 : f.fsOk = true
-  · by_cases h2 : f.chunkLen = 256
-    · by_cases hv : isNameValid f.fullPath = true
-      · obtain ⟨fname, hfn, hfl, hfb⟩ := stringToFileName_ok hv
-        obtain ⟨v, L, hvt, hi⟩ := h
-        have hp : pathOf f.fullPath = pathOfName fname := by unfold pathOf; rw [hfn]
-        simp only [h1, Bool.not_true, Bool.false_eq_true, if_false, h2, ne_eq, not_true_eq_false, hv, hp]
-        exact lift_refines' hvt hi (putM_refines hi hfit hfn hfl hfb)
-      · simp only [h1, Bool.not_true, Bool.false_eq_true, if_false, h2, ne_eq, not_true_eq_false, hv, Bool.not_false, if_true]
-        exact refused_same h _
-    · simp only [h1, Bool.not_true, Bool.false_eq_true, if_false, ne_eq, h2, not_false_eq_true, if_true]
-      exact refused_same h _
-  · simp only [h1, Bool.not_false, if_true]
-    exact refused_same h _
+  obtain ⟨h1, _, pre, post, a, b, c, _⟩ := dos_put_stepD h f hfit
+  exact ⟨h1, pre, post, a, b, c⟩
 
 /-! ## `init` -/
 
@@ -397,11 +485,12 @@ theorem meta_history_refines {sb : List Nat} (ops : List Op) {d : Disk} (h : DIn
 
 /-! ## the history-level theorems of C01 … C05 for the concrete DOS model
 
-Each is the instance of the generic theorem of `Props/C0x.lean` for traces of the concrete model.  They are
-stated for histories **all of whose operations satisfy `StepRefines`** — proved here for `lock`, `unlock`,
-`retype`, `rename` (`meta_step_refines`); for `put` and `delete` the per-step refinement is not yet proved, so
-these theorems are `…_partial`: what is missing for the full statement is exactly `StepRefines (.put f)` (for
-file images within the model's scope) and `StepRefines (.delete name)`. -/
+Each is the instance of the generic theorem of `Props/C0x.lean` for traces of the concrete model.  The `…_partial`
+versions are stated for histories **all of whose operations satisfy `StepRefines`** (a hypothesis); `step_refines`
+below proves `StepRefines` for every operation (for `put`: every file image without an over-long chunk), which gives
+the versions without that hypothesis further down (`dos_history_refines`, `dos_get_returns_last_put`, …).  The
+`…_partial` versions are kept because they also cover a `put` of a file image with an over-long chunk whenever that
+single step happens to refine the specification. -/
 
 /-- C03 (`dos_states_well_formed`, partial): the disk after **every** step of the history, successful or
 refused, is read by the independent reader as a well-formed volume.  Full statement: the same without the
@@ -541,18 +630,50 @@ theorem dos_fits_is_accepted {d : Disk} {sb : List Nat} {v : Bytes} {L : Lay} (h
   rw [run_eq hv]
   exact writeFile_accepts hi hone hname hch hty hfresh hslot hspace
 
-/-- non-vacuity of `dos_fits_is_accepted` and of the spill branch of `dos_put_refines`: on a freshly initialised
-DOS 3.3 volume (528 free sectors, empty catalog) the sparse file image `exB` (chunks 0 and 123, i.e. **two** T/S
-lists) meets every hypothesis, so `put` answers `Ok(4)` = 2 data sectors + 2 T/S lists -/
-example : (put fresh16 exB).1 = .ok 4 := by
-  have hi := fresh16_winv
+/-- **C04, acceptance clause, at the level of the API** (`dos_fits_is_accepted_api`; cf. `pascal_fits_is_accepted`,
+`fat_fits_is_accepted`): on a disk satisfying the invariant, a DOS file image with the right chunk length, at least one
+chunk, no over-long chunk, a type byte and a valid name that is not listed, whose sector requirement **including its
+T/S lists** (`sectorsNeeded f` = chunks + ⌈end/122⌉) does not exceed the free count of the reading (= `stat().free_blocks`,
+`dos_stat_free_is_reading`), and for which a catalog slot exists (`get_next_directory_slot` succeeds), **is accepted**:
+`put` returns `Ok(sectorsNeeded f)` — it is neither refused nor does it panic. -/
+theorem dos_fits_is_accepted_api {d : Disk} {sb : List Nat} (h : DInv d sb) {f : FImg} (hfit : ChunksFit f)
+    (hfs : f.fsOk = true) (hcl : f.chunkLen = 256) (hname : isNameValid f.fullPath = true) (hch : f.chunks.length ≠ 0)
+    (hty : f.fsType ≠ []) (hfresh : pathOf f.fullPath ∉ (volD d sb).paths)
+    (hslot : isOk (d.run nextDirectorySlot).1 = true) (hspace : sectorsNeeded f ≤ (volD d sb).free) :
+    (put d f).1 = .ok (sectorsNeeded f) := by
+  obtain ⟨v, L, hv, hi⟩ := h
+  have hr := reading_toDisk hi
+  rw [toDisk_eq hv] at hr
+  have hvd : volD d sb = volOf (W.mk d.c d.raw v).img d.c sb L := by unfold volD; rw [hr]
+  have hfr : (volD d sb).free = nfree v d.c := by
+    rw [hvd]
+    show (freeOf (W.mk d.c d.raw v).img d.c).length = _
+    rw [freeOf_eq hi.ok]; rfl
+  refine dos_fits_is_accepted hv hi hfit hfs hcl hname hch hty hfresh ?_ (by rw [← hfr]; exact hspace)
+  rw [run_eq hv, nextDirectorySlot_eval hi] at hslot
+  cases hs : slotIn (W.mk d.c d.raw v).img d.c L.cat with
+  | none => rw [hs] at hslot; cases hslot
+  | some x => rfl
+
+/-- a freshly initialised DOS 3.3 volume (528 free sectors, empty catalog) accepts every file image that meets the
+hypotheses of `dos_fits_is_accepted` and needs at most 528 sectors -/
+theorem fresh16_accepts {f : FImg} (hfit : ChunksFit f) (hfs : f.fsOk = true) (hcl : f.chunkLen = 256)
+    (hname : isNameValid f.fullPath = true) (hch : f.chunks.length ≠ 0) (hty : f.fsType ≠ []) (hneed : sectorsNeeded f ≤ 528) :
+    (put fresh16 f).1 = .ok (sectorsNeeded f) := by
+  have hi := fresh16_winv.1
   have hnf : (volD fresh16 (initSys 16)).paths = [] := by
     have hr := reading_toDisk hi
     rw [toDisk_eq fresh16_vtoc] at hr
     unfold volD; rw [hr]
     exact paths_of_no_tsls rfl
-  have := dos_fits_is_accepted (sb := initSys 16) (L := initLay 16) fresh16_vtoc hi exB_fit rfl rfl (by decide) (by decide) (by decide)
-    (by rw [hnf]; exact List.not_mem_nil) (by rw [fresh16_c]; exact fresh16_slot) (by rw [fresh16_c, fresh16_free, exB_needs.1]; decide)
+  exact dos_fits_is_accepted (sb := initSys 16) (L := initLay 16) fresh16_vtoc hi hfit hfs hcl hname hch hty
+    (by rw [hnf]; exact List.not_mem_nil) (by rw [fresh16_c]; exact fresh16_slot) (by rw [fresh16_c, fresh16_free]; exact hneed)
+
+/-- non-vacuity of `dos_fits_is_accepted` and of the spill branch of `dos_put_refines`: on a freshly initialised
+DOS 3.3 volume the sparse file image `exB` (chunks 0 and 123, i.e. **two** T/S lists) meets every hypothesis, so `put`
+answers `Ok(4)` = 2 data sectors + 2 T/S lists -/
+example : (put fresh16 exB).1 = .ok 4 := by
+  have := fresh16_accepts exB_fit rfl rfl (by decide) (by decide) (by decide) (by rw [exB_needs.1]; decide)
   rw [exB_needs.1] at this
   exact this
 
@@ -560,7 +681,7 @@ example : (put fresh16 exB).1 = .ok 4 := by
 example : DInv (put fresh16 exB).2 (initSys 16) ∧ ∃ pre post, reading fresh16 (initSys 16) = .ok pre ∧
     reading (put fresh16 exB).2 (initSys 16) = .ok post ∧
     stepOk dosParams pre (.put (pathOf exB.fullPath) (putChunks exB) 0 (exB.fsType.getD 0 0 % 128) 0) (isOk (put fresh16 exB).1) post = true :=
-  dos_put_refines ⟨_, _, fresh16_vtoc, fresh16_winv⟩ exB exB_fit
+  dos_put_refines ⟨_, _, fresh16_vtoc, fresh16_winv.1⟩ exB exB_fit
 
 /-- C04, the reported free count: `stat().free_blocks` of the concrete model is the number of units the independent
 reader finds marked free in the VTOC bitmap of the flushed image -/
@@ -575,6 +696,265 @@ theorem dos_stat_free_is_reading {d : Disk} {sb : List Nat} (h : DInv d sb) : (s
   rw [numFree_eq hi.ok.vok, hvd]
   show _ = Except.ok (freeOf (W.mk d.c d.raw v).img d.c).length
   rw [freeOf_eq hi.ok]
+  rfl
+
+/-! ## C04: free + owned + system = size along histories
+
+`Vol.noLeak` (every unit is owned, a system unit, or marked free) is kept by every operation except the two refusals of
+`put` that come after `write_file` has reserved the T/S list sector (`PutLeaks`); those lose exactly one sector. -/
+
+theorem volD_eq {d : Disk} {sb : List Nat} {v : Vol} (h : reading d sb = .ok v) : volD d sb = v := by unfold volD; rw [h]
+
+/-- the operation, applied to `d`, is a refused `put` that loses a sector (`PutLeaks`) -/
+def Op.leaks (d : Disk) (sb : List Nat) : Op → Prop
+  | .put f => PutLeaks (volD d sb) d f
+  | _ => False
+
+/-- no step of the history is a refused `put` that loses a sector -/
+def LeakFree (sb : List Nat) : Disk → List Op → Prop
+  | _, [] => True
+  | d, op :: ops => ¬ op.leaks d sb ∧ LeakFree sb (op.run d).2 ops
+
+/-- C04, one step: every operation other than a `put` refused after its T/S list sector was reserved keeps "no unit is
+lost" (and the geometry) -/
+theorem dos_noLeak_step {sb : List Nat} {d : Disk} (h : DInv d sb) (op : Op) (ha : op.ArgsOk) (hl : ¬ op.leaks d sb)
+    (hn : (volD d sb).noLeak = true) : (volD (op.run d).2 sb).noLeak = true ∧ (op.run d).2.c = d.c := by
+  have key : ∀ {d' : Disk} {o : FsOp} {ok : Bool}, StepD d d' sb o ok True → (volD d' sb).noLeak = true ∧ d'.c = d.c := by
+    intro d' o ok hs
+    obtain ⟨_, hc, pre, post, a, b, c⟩ := hs
+    rw [volD_eq a] at hn
+    rw [volD_eq b]
+    exact ⟨c.tight trivial hn, hc⟩
+  cases op with
+  | put f =>
+    obtain ⟨_, hc, pre, post, a, b, _, ht, _⟩ := dos_put_stepD h f ha
+    have hl' : ¬ PutLeaks (volD d sb) d f := hl
+    rw [volD_eq a] at hn hl'
+    show (volD (put d f).2 sb).noLeak = true ∧ (put d f).2.c = d.c
+    rw [volD_eq b]
+    exact ⟨ht hl' hn, hc⟩
+  | delete name => exact key (dos_delete_stepD h name)
+  | rename old new => exact key (dos_rename_stepD h old new)
+  | lock name => exact key (dos_lock_stepD h name)
+  | unlock name => exact key (dos_unlock_stepD h name)
+  | retype name ty => exact key (dos_retype_stepD h name ty)
+
+/-- the system units of a reading lie inside the volume -/
+theorem volD_sys_in_range {sb : List Nat} {d : Disk} (h : DInv d sb) (hsb : ∀ u ∈ sb, u < 35 * d.c) :
+    (volD d sb).lo = 0 ∧ (volD d sb).hi = 35 * d.c ∧ ∀ u ∈ (volD d sb).sys, (volD d sb).lo ≤ u ∧ u < (volD d sb).hi := by
+  obtain ⟨v, L, hv, hi⟩ := h
+  have hr := reading_toDisk hi
+  rw [toDisk_eq hv] at hr
+  rw [volD_eq hr]
+  refine ⟨rfl, rfl, fun u hu => ⟨Nat.zero_le _, ?_⟩⟩
+  show u < 35 * d.c
+  have hu' : u ∈ fixedOf d.c L ++ sb.filter (fun u => !(fixedOf d.c L).contains u) := hu
+  rcases List.mem_append.1 hu' with hf | hf
+  · rcases List.mem_cons.1 hf with rfl | hc
+    · have := hi.ok.hc
+      show Read.Dos3x.vtocTrack * d.c < 35 * d.c
+      unfold Read.Dos3x.vtocTrack
+      have : d.c = 13 ∨ d.c = 16 := this
+      omega
+    · obtain ⟨_, _, _, _, _, hlt⟩ := catChain_mem hi.desc.cat u hc
+      rw [hi.desc.size] at hlt; exact hlt
+  · exact hsb u (List.mem_filter.1 hf).1
+
+/-- C04, one state: in a state without lost units, free + owned + system sectors = all sectors -/
+theorem dos_state_accounting {sb : List Nat} {d : Disk} (h : DInv d sb) (hsb : ∀ u ∈ sb, u < 35 * d.c)
+    (hn : (volD d sb).noLeak = true) :
+    (volD d sb).free + (volD d sb).allOwned.length + (volD d sb).sys.length = 35 * d.c := by
+  obtain ⟨hlo, hhi, hsys⟩ := volD_sys_in_range h hsb
+  have := C04.free_accounting (reading_volD h).2 hn hsys
+  rw [hlo, hhi] at this
+  exact this
+
+/-- **C04 for the concrete DOS model** (`dos_free_accounting`): along every history of `put` / `delete` / `rename` /
+`lock` / `unlock` / `retype` that starts in a state without lost units and contains no `put` refused after its T/S list
+sector was reserved (`LeakFree`: catalog full, or no type byte), in **every** state — after successful and after refused
+steps — no unit is lost and `free + owned + system = size` (35 · sectors per track). -/
+theorem dos_free_accounting {sb : List Nat} : ∀ (ops : List Op) {d : Disk}, DInv d sb → (∀ u ∈ sb, u < 35 * d.c) →
+    (volD d sb).noLeak = true → (∀ op ∈ ops, op.ArgsOk) → LeakFree sb d ops →
+    (∀ s ∈ trace sb d ops, s.post.noLeak = true ∧ s.post.free + s.post.allOwned.length + s.post.sys.length = 35 * d.c) ∧
+    (volD (finalDisk d ops) sb).noLeak = true ∧
+    (volD (finalDisk d ops) sb).free + (volD (finalDisk d ops) sb).allOwned.length + (volD (finalDisk d ops) sb).sys.length = 35 * d.c := by
+  intro ops
+  induction ops with
+  | nil =>
+    intro d h hsb hn _ _
+    exact ⟨fun s hs => (by cases hs), hn, dos_state_accounting h hsb hn⟩
+  | cons op ops ih =>
+    intro d h hsb hn ha hl
+    have hao := ha op List.mem_cons_self
+    obtain ⟨h1, _⟩ := step_refines op hao d sb h
+    obtain ⟨hn1, hc1⟩ := dos_noLeak_step h op hao hl.1 hn
+    have hsb1 : ∀ u ∈ sb, u < 35 * (op.run d).2.c := by rw [hc1]; exact hsb
+    obtain ⟨a, b, c⟩ := ih h1 hsb1 hn1 (fun o ho => ha o (List.mem_cons_of_mem _ ho)) hl.2
+    rw [hc1] at a c
+    refine ⟨?_, b, c⟩
+    intro s hs
+    rcases List.mem_cons.1 hs with rfl | hs
+    · refine ⟨hn1, ?_⟩
+      have := dos_state_accounting h1 hsb1 hn1
+      rw [hc1] at this
+      exact this
+    · exact a s hs
+
+/-- C04: a freshly initialised volume has no lost unit (every sector is the VTOC, a catalog-track or track-0 sector, or
+marked free), and its format-time system units lie inside the volume -/
+theorem dos_init_noLeak {c : Nat} (hc : c = 13 ∨ c = 16) :
+    (volD (init (blank c) 254 c).2 (initSys c)).noLeak = true ∧ (init (blank c) 254 c).2.c = c := by
+  obtain ⟨w, h, hi, hcw, hvol⟩ := init_winv hc
+  rw [h]
+  have hr := reading_toDisk hi
+  rw [volD_eq hr, hvol]
+  exact ⟨initVol_noLeak c hc, hcw⟩
+
+/-- **C04, the excluded case, exactly**: a `put` that is refused after `write_file` has reserved its T/S list sector
+(`PutLeaks`: DISK FULL although enough sectors are free, i.e. the catalog is full; or RANGE ERROR, no type byte) leaves
+every file as it was, lowers the free count by exactly one, and the lost sector is neither owned nor a system sector:
+a state without lost units becomes one with a lost unit.  (On a2kit itself: `proposed_fixes/dos-put-catalog-full-leak.diff`.) -/
+theorem dos_put_leak_exact {sb : List Nat} {d : Disk} (h : DInv d sb) (hsb : ∀ u ∈ sb, u < 35 * d.c) {f : FImg} (hfit : ChunksFit f)
+    (hl : PutLeaks (volD d sb) d f) :
+    (volD (put d f).2 sb).files = (volD d sb).files ∧ (volD (put d f).2 sb).free + 1 = (volD d sb).free ∧
+    ((volD d sb).noLeak = true → (volD (put d f).2 sb).noLeak = false) := by
+  obtain ⟨h1, hc, pre, post, a, b, _, _, hk⟩ := dos_put_stepD h f hfit
+  have e1 := volD_eq a
+  have e2 := volD_eq b
+  rw [e1] at hl
+  obtain ⟨hf, hfr, hs, _, _⟩ := hk hl
+  refine ⟨by rw [e1, e2]; exact hf, by rw [e1, e2]; exact hfr, fun hn => ?_⟩
+  cases hp : (volD (put d f).2 sb).noLeak with
+  | false => rfl
+  | true =>
+    exfalso
+    have hsb1 : ∀ u ∈ sb, u < 35 * (put d f).2.c := by rw [hc]; exact hsb
+    have a1 := dos_state_accounting h hsb hn
+    have a2 := dos_state_accounting h1 hsb1 hp
+    rw [hc, e2] at a2
+    rw [e1] at a1
+    have ho : post.allOwned = pre.allOwned := by unfold Vol.allOwned; rw [hf]
+    rw [ho, hs] at a2
+    omega
+
+/-- non-vacuity of `dos_put_leak_exact`: on a fresh DOS 3.3 volume the file image `exN` (no type byte) is refused with
+RANGE ERROR after its T/S list sector was reserved: 528 free sectors become 527 with an empty catalog -/
+example : (volD (put fresh16 exN).2 (initSys 16)).free + 1 = (volD fresh16 (initSys 16)).free ∧
+    (volD (put fresh16 exN).2 (initSys 16)).noLeak = false := by
+  have hd : DInv fresh16 (initSys 16) := ⟨_, _, fresh16_vtoc, fresh16_winv.1⟩
+  have hsb : ∀ u ∈ initSys 16, u < 35 * fresh16.c := by rw [fresh16_c]; exact initSys_lt
+  have hfit : ChunksFit exN := by
+    intro k d hd
+    unfold exN at hd
+    simp only [List.lookup] at hd
+    split at hd
+    · cases hd; decide
+    · cases hd
+  have hl : PutLeaks (volD fresh16 (initSys 16)) fresh16 exN := ⟨rfl, rfl, by decide, Or.inr (errOf_some fresh16_exN)⟩
+  have hn : (volD fresh16 (initSys 16)).noLeak = true := (dos_init_noLeak (c := 16) (Or.inr rfl)).1
+  obtain ⟨_, a, b⟩ := dos_put_leak_exact hd hsb hfit hl
+  exact ⟨a, b hn⟩
+
+/-! ## `get` and `catalog` of the concrete model are the reading (C01, C05 at the level of the API) -/
+
+/-- **C01 at the API level** (`dos_get_is_reading`): on a disk satisfying the invariant, `get` of a valid name does not
+change the disk; if the independent reader lists a file under that name, `get` returns exactly that record's chunk
+map (every stored chunk at its index, holes absent, data = the full sectors) and its type byte (type + 128 · lock bit);
+if the reader lists no such file, `get` answers FILE NOT FOUND. -/
+theorem dos_get_is_reading {d : Disk} {sb : List Nat} (h : DInv d sb) {name : Bytes} (hv : isNameValid name = true) :
+    (Fs.Dos3x.get d name).2 = d ∧
+    (∀ g, (volD d sb).lookup (pathOf name) = some g →
+      (Fs.Dos3x.get d name).1 = .ok { fsType := g.ftype + 128 * g.access, chunks := g.chunks }) ∧
+    ((volD d sb).lookup (pathOf name) = none → (Fs.Dos3x.get d name).1 = .error .fileNotFound) := by
+  obtain ⟨fname, hfn, _, _⟩ := stringToFileName_ok hv
+  obtain ⟨v, L, hvt, hi⟩ := h
+  have hp : pathOf name = pathOfName fname := by unfold pathOf; rw [hfn]
+  have hr := reading_toDisk hi
+  rw [toDisk_eq hvt] at hr
+  have hvd : volD d sb = volOf (W.mk d.c d.raw v).img d.c sb L := volD_eq hr
+  have hlen : ¬ ((nameBytes name).length > 30) := by
+    have := nameBytes_length_le name
+    unfold isNameValid at hv
+    simp only [Bool.and_eq_true, decide_eq_true_eq] at hv
+    omega
+  have hget : Fs.Dos3x.get d name = d.run (getM name) := by unfold Fs.Dos3x.get; rw [if_neg hlen]
+  obtain ⟨h1, h2⟩ := getM_is_reading hi hv hfn
+  rw [hget, run_eq hvt, hvd, hp]
+  refine ⟨?_, fun g hg => by rw [h1 g hg], fun hg => by rw [h2 hg]⟩
+  cases hl : (volOf (W.mk d.c d.raw v).img d.c sb L).lookup (pathOfName fname) with
+  | none => rw [h2 hl]; exact toDisk_eq hvt
+  | some g => rw [h1 g hl]; exact toDisk_eq hvt
+
+/-- **C01 for the concrete DOS model, through the API**: after an accepted `put` (any number of T/S lists) and any
+further history that does not name the file, `get` of that name returns the stored chunks index for index, each
+beginning with the stored bytes, and the stored type. -/
+theorem dos_get_after_put {sb : List Nat} {d : Disk} (h : DInv d sb) {f : FImg} (hfit : ChunksFit f)
+    (hname : isNameValid f.fullPath = true) (hok : ((Op.put f).run d).1 = true) {ops : List Op} (ha : ∀ op ∈ ops, op.ArgsOk)
+    (hq : ∀ op ∈ ops, pathOf f.fullPath ∉ op.abs.targets) :
+    ∃ got, (Fs.Dos3x.get (finalDisk ((Op.put f).run d).2 ops) f.fullPath).1 = .ok got ∧
+      chunksMatch (putChunks f) got.chunks = true ∧ got.fsType % 128 = f.fsType.getD 0 0 % 128 := by
+  obtain ⟨g, hg, hc, ht, _⟩ := dos_get_returns_last_put h hfit hok ha hq
+  obtain ⟨h1, _⟩ := step_refines (.put f) hfit d sb h
+  obtain ⟨_, hfin, _⟩ := full_history_refines ops h1 ha
+  obtain ⟨_, hget, _⟩ := dos_get_is_reading hfin hname
+  refine ⟨_, hget g hg, hc, ?_⟩
+  show (g.ftype + 128 * g.access) % 128 = _
+  rw [ht]; omega
+
+theorem filesOf_map {r : Raw} {c : Nat} {α : Type} {R : Bytes → List Nat → Prop} (ψ : FileRec → α) (ψ' : Bytes → α)
+    (hψ : ∀ e t, ψ (recOf r c e t) = ψ' e) {L : List Bytes} {T : List (List Nat)} (h : All2 R L T) :
+    (filesOf r c L T).map ψ = L.map ψ' := by
+  induction h with
+  | nil => rfl
+  | @cons e t L T _ _ ih => rw [filesOf_cons, List.map_cons, List.map_cons, hψ, ih]
+
+/-- **C05 at the API level** (`dos_catalog_is_reading`): `catalog_to_vec` does not change the disk and lists exactly
+the files the independent reader finds, in the same order: the name a2kit prints is `renderPath` of the reader's
+path, the sector count is the record's `aux`, the type byte is type + 128 · lock bit. -/
+theorem dos_catalog_is_reading {d : Disk} {sb : List Nat} (h : DInv d sb) :
+    (Fs.Dos3x.catalog d).2 = d ∧
+    (Fs.Dos3x.catalog d).1 = .ok ((volD d sb).files.map (fun g => (renderPath g.path, g.aux, g.ftype + 128 * g.access))) := by
+  obtain ⟨v, L, hvt, hi⟩ := h
+  have hr := reading_toDisk hi
+  rw [toDisk_eq hvt] at hr
+  have hvd : volD d sb = volOf (W.mk d.c d.raw v).img d.c sb L := volD_eq hr
+  have hc := catalogM_is_reading hi
+  have hcat : Fs.Dos3x.catalog d = (.ok ((liveOf (W.mk d.c d.raw v).img L.cat).map rowOf), d) := by
+    unfold Fs.Dos3x.catalog
+    rw [run_eq hvt, hc]
+    simp only [toDisk_eq hvt]
+  rw [hcat, hvd]
+  refine ⟨rfl, ?_⟩
+  show Except.ok _ = Except.ok ((filesOf (W.mk d.c d.raw v).img d.c (liveOf (W.mk d.c d.raw v).img L.cat) L.tsls).map _)
+  congr 1
+  have hmap : ∀ e ∈ liveOf (W.mk d.c d.raw v).img L.cat, rowOf e =
+      (renderPath (pathOfName (slice e 3 30)), le16 e 33, e.getD 2 0 % 128 + 128 * (e.getD 2 0 / 128)) := by
+    intro e he
+    unfold rowOf
+    rw [fileNameToString_path _ (hi.names e he), Nat.mod_add_div]
+  rw [filesOf_map (fun g => (renderPath g.path, g.aux, g.ftype + 128 * g.access))
+    (fun e => (renderPath (pathOfName (slice e 3 30)), le16 e 33, e.getD 2 0 % 128 + 128 * (e.getD 2 0 / 128)))
+    (fun e t => rfl) hi.desc.files]
+  exact List.map_congr_left hmap
+
+/-- non-vacuity of `dos_get_is_reading` / `dos_get_after_put`: after the accepted two-list put of `exB` on a fresh volume,
+`get` returns chunks at the indices 0 and 123 which begin with the stored bytes -/
+example : ∃ got, (Fs.Dos3x.get (put fresh16 exB).2 exB.fullPath).1 = .ok got ∧ chunksMatch (putChunks exB) got.chunks = true := by
+  have hd : DInv fresh16 (initSys 16) := ⟨_, _, fresh16_vtoc, fresh16_winv.1⟩
+  have hok : (put fresh16 exB).1 = .ok (sectorsNeeded exB) :=
+    fresh16_accepts exB_fit rfl rfl (by decide) (by decide) (by decide) (by rw [exB_needs.1]; decide)
+  have hok' : ((Op.put exB).run fresh16).1 = true := by unfold Op.run; simp only; rw [hok]; rfl
+  have hnm : isNameValid exB.fullPath = true := by decide
+  obtain ⟨got, a, b, _⟩ := dos_get_after_put hd exB_fit hnm hok' (ops := []) (fun _ h => by cases h) (fun _ h => by cases h)
+  simp only [finalDisk, Op.run] at a
+  exact ⟨got, a, b⟩
+
+/-- non-vacuity of `dos_catalog_is_reading`: the catalog of a fresh volume is empty -/
+example : (Fs.Dos3x.catalog fresh16).1 = .ok [] := by
+  have hd : DInv fresh16 (initSys 16) := ⟨_, _, fresh16_vtoc, fresh16_winv.1⟩
+  have hr := reading_toDisk fresh16_winv.1
+  rw [toDisk_eq fresh16_vtoc] at hr
+  rw [(dos_catalog_is_reading hd).2, volD_eq hr, fresh16_winv.2]
   rfl
 
 /-! ## non-vacuity: a concrete history on a freshly initialised DOS 3.3 volume -/
@@ -596,16 +976,37 @@ theorem exA_one : ChunksFit exA := by
           rw [e2] at hd; cases hd
     rcases this with ⟨_, rfl⟩ | ⟨_, rfl⟩ <;> simp
 
+def exHist : List Op :=
+  [.put exA, .lock [72, 105], .delete [72, 105], .unlock [72, 105], .rename [72, 105] [89, 111], .delete [89, 111]]
+
+theorem exHist_ok : ∀ op ∈ exHist, op.ArgsOk := by
+  intro op ho
+  simp only [exHist, List.mem_cons, List.mem_nil_iff, or_false] at ho
+  rcases ho with rfl | rfl | rfl | rfl | rfl | rfl
+  · exact exA_one
+  all_goals trivial
+
 /-- every state of this history (put a sparse file, lock it, a refused delete, unlock, rename, delete) on a fresh
 DOS 3.3 volume is well formed, and the names listed at the end are the fold of the history -/
-example : ∀ s ∈ trace (initSys 16) (init (blank 16) 254 16).2
-    [.put exA, .lock [72, 105], .delete [72, 105], .unlock [72, 105], .rename [72, 105] [89, 111], .delete [89, 111]],
-    s.post.wfB = true :=
-  (dos_states_well_formed (dos_init_establishes_inv (c := 16) (Or.inr rfl)).2 (by
-    intro op ho
-    simp only [List.mem_cons, List.mem_nil_iff, or_false] at ho
-    rcases ho with rfl | rfl | rfl | rfl | rfl | rfl
-    · exact exA_one
-    all_goals trivial)).1
+example : ∀ s ∈ trace (initSys 16) (init (blank 16) 254 16).2 exHist, s.post.wfB = true :=
+  (dos_states_well_formed (dos_init_establishes_inv (c := 16) (Or.inr rfl)).2 exHist_ok).1
+
+/-- non-vacuity of `dos_free_accounting`: in every state of that history, free + owned + system sectors = 560 -/
+example : ∀ s ∈ trace (initSys 16) fresh16 exHist, s.post.free + s.post.allOwned.length + s.post.sys.length = 560 := by
+  have hd : DInv fresh16 (initSys 16) := ⟨_, _, fresh16_vtoc, fresh16_winv.1⟩
+  have hsb : ∀ u ∈ initSys 16, u < 35 * fresh16.c := by rw [fresh16_c]; exact initSys_lt
+  have hn : (volD fresh16 (initSys 16)).noLeak = true := (dos_init_noLeak (c := 16) (Or.inr rfl)).1
+  have hok : (put fresh16 exA).1 = .ok (sectorsNeeded exA) :=
+    fresh16_accepts exA_one rfl rfl (by decide) (by decide) (by decide) (by decide)
+  have hl : LeakFree (initSys 16) fresh16 exHist := by
+    refine ⟨?_, fun h => h, fun h => h, fun h => h, fun h => h, fun h => h, trivial⟩
+    intro hp
+    have := hp.2.2.2
+    rw [hok] at this
+    rcases this with ⟨e, _⟩ | e <;> cases e
+  intro s hs
+  have := ((dos_free_accounting exHist hd hsb hn exHist_ok hl).1 s hs).2
+  rw [fresh16_c] at this
+  exact this
 
 end A2Verif.FsDos
